@@ -1,5 +1,5 @@
 """C10 — memory and SQLite backends are observably the same store (partial: the places where one function was written twice)."""
-import re, time
+import os, re, time
 import z3
 
 from vlib.common import Result
@@ -272,10 +272,47 @@ def o3(tier):
     return r
 
 
+def _sql_expr(txt, old, new):
+    """evaluate a DO UPDATE SET right-hand side over symbolic rows: returns (is_null, value); grammar: col | excluded.col | COALESCE/IFNULL(a, b) | NULL | integer"""
+    t = txt.strip()
+    m = re.fullmatch(r'(?i)(COALESCE|IFNULL)\s*\((.*)\)', t)
+    if m:
+        args = S.split_top(m.group(2))
+        vals = [_sql_expr(a, old, new) for a in args]
+        n_, v_ = vals[-1]
+        for an, av in reversed(vals[:-1]):
+            n_, v_ = z3.And(an, n_), z3.If(an, v_, av)
+        return n_, v_
+    m = re.fullmatch(r'(?i)excluded\s*\.\s*"?(\w+)"?', t)
+    if m:
+        if m.group(1) not in new:
+            raise S.SqlError(f'excluded.{m.group(1)}: no such inserted column')
+        return new[m.group(1)]
+    if re.fullmatch(r'(?i)NULL', t):
+        return z3.BoolVal(True), z3.BitVecVal(0, 64)
+    if re.fullmatch(r'-?\d+', t):
+        return z3.BoolVal(False), z3.BitVecVal(int(t), 64)
+    m = re.fullmatch(r'"?(\w+)"?', t)
+    if m:
+        return old.setdefault(m.group(1), (z3.Bool(f'old_{m.group(1)}_null'), z3.BitVec(f'old_{m.group(1)}', 64)))
+    raise S.SqlError(f'DO UPDATE SET expression not understood: {txt}')
+
+
+def _set_is_new_value(sol, cols, c, rhs):
+    """z3: after `SET c = rhs` the column holds the newly inserted value, whatever the old and new values (NULL included)"""
+    new = {k: (z3.Bool(f'new_{k}_null'), z3.BitVec(f'new_{k}', 64)) for k in cols}
+    old = {}
+    rn, rv = _sql_expr(rhs, old, new)
+    nn, nv = new[c]
+    sat, _ = sol.check([z3.Not(z3.And(rn == nn, z3.Or(nn, rv == nv)))])
+    return not sat
+
+
 def o4(tier):
     r = Result('O4', 'sqlsym', 'SQLite upserts are last-write-wins on every column: each INSERT ... ON CONFLICT lists every non-key column of its table in DO UPDATE SET (checked against the migrations)')
     t0 = time.time()
     tables = S.load_catalogue()
+    sol = S.Solver()
     n = 0
     for rel, fns in (('groups.rs', ['save_group', 'save_group_exporter_secret']), ('messages.rs', ['save_message', 'save_processed_message']),
                      ('welcomes.rs', ['save_welcome', 'save_processed_welcome'])):
@@ -299,7 +336,7 @@ def o4(tier):
                     tgt, sets, nothing = s.conflict
                     if sorted(tgt) != sorted(t.pk):
                         r.fail(f'O4/{fn}/conflict-target', f'{fn}: ON CONFLICT({tgt}) is not the primary key {t.pk}')
-                    stale = [c for c in s.cols if c not in tgt and (c not in sets or sets[c].replace(' ', '') != f'excluded.{c}')]
+                    stale = [c for c in s.cols if c not in tgt and (c not in sets or not _set_is_new_value(sol, s.cols, c, sets[c]))]
                     if nothing or stale:
                         r.fail(f'O4/{fn}/stale-column', f'{fn}: on overwrite column(s) {stale or "all"} keep their old value (lookup would not return the last value saved)')
                 elif s.conflict == 'REPLACE':
@@ -310,9 +347,98 @@ def o4(tier):
                     if t.pk and all(k in s.cols for k in t.pk) and fn.startswith('save_'):
                         r.notes.append(f'{fn}: plain INSERT into {s.table}: a second save under the same key fails instead of overwriting (checked separately where the contract requires overwrite)')
     r.cases = n
+    r.queries = sol.queries
+    r.solver_s = sol.time
     r.functions = ['save_group', 'save_group_exporter_secret', 'save_message', 'save_processed_message', 'save_welcome', 'save_processed_welcome']
-    r.bounds = {'tables': 'all columns per migrations V001..'}
-    r.notes.append('catalogue cross-check (no solver query)')
+    r.bounds = {'tables': 'all columns per migrations V001..', 'DO UPDATE SET expressions': 'z3: value after the upsert == the new value, for all old/new values incl. NULL'}
+    r.wall_s = time.time() - t0
+    return r
+
+
+SAVE_FNS = (('groups.rs', 'save_group', 'row_to_group'), ('groups.rs', 'save_group_exporter_secret', 'row_to_group_exporter_secret'),
+            ('messages.rs', 'save_message', 'row_to_message'), ('messages.rs', 'save_processed_message', 'row_to_processed_message'),
+            ('welcomes.rs', 'save_welcome', 'row_to_welcome'), ('welcomes.rs', 'save_processed_welcome', 'row_to_processed_welcome'))
+
+
+def _struct_fields(tyname):
+    """{field: type text} of `pub struct tyname` in mdk-storage-traits (current source)"""
+    import glob
+    for f in glob.glob(os.path.join(S.REPO, 'crates', 'mdk-storage-traits', 'src', '**', '*.rs'), recursive=True):
+        src = open(f).read()
+        m = re.search(r'pub struct ' + re.escape(tyname) + r'\s*\{', src)
+        if m:
+            body = src[m.end(): src.index('\n}', m.end())]
+            body = re.sub(r'//[^\n]*', '', body)
+            return {a: b.strip() for a, b in re.findall(r'pub\s+(\w+)\s*:\s*([^,\n]+)', body)}
+    return {}
+
+
+def o8(tier):
+    """write-side fidelity: what a save_* binds is read back as what was given (z3 over the Rust-side parameter conversions)"""
+    from sqlsym import writes as W
+    r = Result('O8', 'sqlsym', 'SQLite save_*: every INSERT parameter is bound to the column of its own field, and for INTEGER columns the Rust-side conversion composed with '
+                              'rusqlite ToSql / the db.rs decoder is the identity on every accepted value (all values of the field type; epochs < 2^63)')
+    t0 = time.time()
+    sol = S.Solver()
+    tables = S.load_catalogue()
+    dbsrc = S.source('db.rs')
+    for rel, fn, decoder in SAVE_FNS:
+        src = S.source(rel)
+        body = S.fn_body(src, fn)
+        sig = re.search(r'\bfn ' + fn + r'\s*\(\s*&self\s*,\s*(\w+)\s*:\s*&?\s*([\w:]+)', src)
+        if not sig:
+            raise S.SqlError(f'{fn}: cannot read the signature')
+        record, rtype = sig.group(1), sig.group(2).split('::')[-1]
+        ftypes = _struct_fields(rtype)
+        lets = S.let_bindings(rel, fn)
+        for sql in S.program(rel, fn):
+            st = S.parse_stmt(sql)
+            if st.kind != 'INSERT' or st.table not in tables:
+                continue
+            params = W.params_after(body, sql)
+            if len(params) != len(st.cols):
+                raise S.SqlError(f'{fn}: {len(params)} parameters for {len(st.cols)} columns')
+            t = tables[st.table]
+            ctype = {c[0]: c[1] for c in t.cols}
+            for col, raw in zip(st.cols, params):
+                r.cases += 1
+                e = W.expand(raw, lets)
+                fld = W.field_of(e, record)
+                if fld and fld != col and fld in ctype and fld in st.cols:
+                    r.fail(f'O8/{fn}/{col}/wrong-field', f'{fn}: column {col} is bound to {record}.{fld} (parameter `{raw}`), the field of another column: the stored record is not the one given')
+                    continue
+                if ctype.get(col) not in ('INTEGER', 'INT', 'BIGINT'):
+                    if W.RISKY.search(e) and not e.startswith('match:') and re.search(r'\bas\s+[iu]\d|try_from|unwrap_or\(|\.min\(|\.max\(', e) and fld:
+                        r.notes.append(f'{fn}.{col}: non-integer column with a numeric-looking conversion `{e[:60]}` (not analysed)')
+                    continue
+                if e.startswith('match:'):
+                    continue                      # enum-to-integer encodings are checked by the state-machine obligations, not here
+                conv = W.conversion(e, ftypes.get(fld or '', ''))
+                rty = W.read_type(dbsrc, decoder, col)
+                if conv is None:
+                    continue                      # plain accessor: bound as is, ToSql accepts or refuses, nothing is altered
+                x = z3.BitVec(f'{fn}_{col}_x', W.INT_BITS[conv.src_ty])
+                y = conv.fn(x)
+                acc, stored = W.stored_of(y, conv.out_ty)
+                rb = W.read_back(stored, rty)
+                if rb is None:
+                    raise S.SqlError(f'{fn}.{col}: cannot find the integer type the column is decoded into (db.rs::{decoder})')
+                defined, val = rb
+                x64 = z3.SignExt(64 - x.size(), x) if conv.src_ty[0] == 'i' and x.size() < 64 else (z3.ZeroExt(64 - x.size(), x) if x.size() < 64 else x)
+                dom = z3.ULT(x64, z3.BitVecVal(2 ** 63, 64)) if col == 'epoch' else z3.BoolVal(True)
+                sat, model = sol.check([dom, acc, z3.Not(z3.And(defined, val == x64))])
+                if sat:
+                    xv = model.eval(x, model_completion=True).as_long()
+                    sv = model.eval(stored, model_completion=True).as_signed_long()
+                    r.fail(f'O8/{fn}/{col}/altered-on-write', f'{fn}: {record}.{fld or col} = {xv} is accepted but stored as {sv} via `{conv.text}` and is not read back as given '
+                           f'(decoder type {rty}): the stored record differs from the one saved', detail={'x': xv, 'stored': sv, 'conversion': conv.text})
+                r.samples.append(f'{fn}.{col}: forall x: accepted(x) => read({conv.text}) == x  [{ "violated" if sat else "unsat-negation = holds"}]')
+    r.queries = sol.queries
+    r.solver_s = sol.time
+    r.functions = [f'mdk_sqlite_storage::{fn} (params![..] + SQL) / db::{d}' for _, fn, d in SAVE_FNS]
+    r.bounds = {'integers': 'all values of the field machine type (64-bit bit-vectors)', 'epoch columns': '< 2^63 (one commit per epoch)'}
+    r.assumptions += ['rusqlite ToSql: u64/usize are refused above i64::MAX, other integer types are bound as is; FromSql refuses out-of-range values',
+                      'parameters without a numeric conversion are bound unaltered']
     r.wall_s = time.time() - t0
     return r
 
@@ -332,8 +458,13 @@ def o7(tier):
     return memobs.memory_rollback(tier, 'O7', 'O7')
 
 
+def o9(tier):
+    from props import memobs
+    return memobs.save_group_refusal(tier, 'O9', 'O9')
+
+
 def run(tier, seed, only=None):
-    obs = [('O1', o1), ('O2', o2), ('O3', o3), ('O4', o4), ('O5', o5), ('O6', o6), ('O7', o7)]
+    obs = [('O1', o1), ('O2', o2), ('O3', o3), ('O4', o4), ('O5', o5), ('O6', o6), ('O7', o7), ('O8', o8), ('O9', o9)]
     out = []
     for k, f in obs:
         if only and k not in only:
